@@ -420,13 +420,14 @@ CHECKS["C13"] = dict(
           "scheduler (threads gated on trace events) runs ~1100 single-preemption interleavings at call/return "
           "events and random <=3-preemption schedules among 2-4 threads over document, rpc and encoded/multiref "
           "calls on one client, clones and clones of clones, comparing each thread's request and result with its "
-          "solo run (41k interleavings thorough). PARTIAL: GIL, C-level atomicity of dict/list operations and the "
+          "solo run (all 49 ordered scenario pairs, ~259k single-preemption interleavings, in the thorough tier); a memo-stress call with 1500+ distinct classes checks that memo cells only ever grow (memo_cells_monotone). PARTIAL: GIL, C-level atomicity of dict/list operations and the "
           "thread safety of the standard library are assumed."),
     design="DESIGN.md §5 C13",
     technique="Coq proof (data-race-freedom non-interference for all schedules) + measured footprints + "
               "deterministic-scheduler correspondence",
-    note="Marshalling/unmarshalling content is compared with solo runs only; the model schedule is mapped from the "
-         "real one coarsely (per-mille progress); exhaustive single-preemption covers 8 ordered scenario pairs.",
+    note="Marshalling/unmarshalling content is compared with solo runs only; the real schedule is mapped to the "
+         "model schedule by step labels read off the suspended thread's stack (exact at statement level inside the "
+         "modelled functions, at function events elsewhere).",
 )
 
 PENDING = {}
